@@ -438,8 +438,8 @@ def _cls_fx(t, impl):
     op = t[0]
     if op == "fx":
         return "fx:n=%s:%s" % (t[3], impl), True
-    if op == "fxrate":
-        return "fxrate:" + _kind_of(impl), True
+    if op in ("fxrate", "fxrateq"):
+        return op + ":" + _kind_of(impl), True
     if op in ("fxupdate", "fxorder"):
         return "%s:%s" % (op, impl), True
     if op in ("fxdump", "fxad"):
@@ -496,16 +496,16 @@ PROPS["C09"] = Prop(
          "base (or none), rates log-uniform 1e-2..1e2, with/without settlement; the same quotes re-ordered with another "
          "base; malformed stream (missing / inverted duplicate / duplicate / cycle / mixed settlement). compared: ok/err, "
          "every rate, full matrix; model-free oracle on the implementation's matrix (diagonal, inverse, triangle law)",
-    classify=_cls_fx, mode="close", exhaustive=lambda tier: False, trusted=_fx_trusted, assumptions=_dual_assume,
-    oracle=_oracle_fx, allow_badop=True)
+    classify=_cls_fx, mode="close", modes={"fxrateq": "exact"}, exhaustive=lambda tier: False, trusted=_fx_trusted,
+    assumptions=_dual_assume, oracle=_oracle_fx, allow_badop=True)
 
 PROPS["C10"] = Prop(
     rule="markets as C09 (n = 2..8, some quotes given as dual numbers with own variables) + histories of 0..12 ops (quote "
          "updates of subsets, updates naming unknown/inverted pairs, order switches 0/1/2); after every op: order, full "
          "matrix with gradients and Hessians by name, and a market built directly from the latest quotes; model-free "
          "oracle: every sensitivity to fx_abc is 0 or +-rate/quote",
-    classify=_cls_fx, mode="close", exhaustive=lambda tier: False, trusted=_fx_trusted, assumptions=_dual_assume,
-    oracle=_oracle_fx)
+    classify=_cls_fx, mode="close", modes={"fxrateq": "exact"}, exhaustive=lambda tier: False, trusted=_fx_trusted,
+    assumptions=_dual_assume, oracle=_oracle_fx)
 
 
 # ---------------------------------------------------------------------------------------------
